@@ -62,7 +62,10 @@ def gen_cases(tier: str, seed: int) -> list[dict]:
         fmt = rng.choice(dsmod.FORMATS)
         cases.append({"kind": "description", "fmt": fmt, "comp": rng.choice(dsmod.COMPRESSIONS[fmt]),
                       "dseed": rng.randrange(1 << 30)})
-    targets = ["moved", "deep/er/nest", "ünï ✓ 日本", "with blank  s", "trailing.dot.", "-dash", "a'b\"c"]
+    targets = ["moved", "deep/er/nest", "ünï ✓ 日本", "with blank  s", "trailing.dot.", "-dash", "a'b\"c",
+               # decomposed unicode (e + combining acute, u + combining diaeresis): a different byte string than the
+               # composed spelling, and on Linux a different directory
+               "de\u0301compose\u0301/u\u0308ber"]
     spellings = ["abs", "rel", "dot-rel", "updown", "abs-updown", "rel-parent", "same-relative-name"]
     n_rel = 60 if tier == "quick" else 900
     for k in range(n_rel):
